@@ -79,6 +79,14 @@ def random_ops(rng, length):
             ops.append({"op": "add", "nid": nid, "kind": kind, "how": rng.choice(["add", "setitem", "int"]), "extra": extra})
             nodes[nid] = kind
             xsdo[nid] = set(extra)
+        elif r < 0.448:
+            if nodes:      # the application unsubscribes a handler of a node itself, then removes / replaces the node
+                nid = rng.choice(sorted(nodes))
+                ops.append({"op": "unsub_handler", "nid": nid, "role": rng.randrange(4)})
+                if rng.random() < 0.7:
+                    ops.append(rng.choice([{"op": "remove", "nid": nid},
+                                           {"op": "add", "nid": nid, "kind": rng.choice(["remote", "local"]), "how": "add", "extra": []}]))
+                ops.append({"op": "notify", "id": rng.choice([0, 0x700 + nid, 0x80 + nid, 0x580 + nid]), "d": [5, nid, 0, 0, 0, 0, 0, 0], "ts": 1})
         elif r < 0.455:
             if nodes:      # the same node object is registered again
                 ops.append({"op": "readd", "nid": rng.choice(sorted(nodes)), "how": rng.choice(["add", "setitem"])})
